@@ -140,7 +140,7 @@ def run(chk, replay=None):
         rows = gen_datum.main(REPO, gen_dir())
         chk.cov["datum_impls_translated"] = len(rows)
         # C08Devices.v: the time-stamp rules of the device updates (newest contributing read; axle accumulator from i64::MIN) as translated from src/devices.rs
-        proof = proof_check_streams(PID, "C08Devices", extra=("C03DatumOps",))
+        proof = proof_check_streams(PID, "C08Devices", extra=("C03DatumOps", "CtorStreams"))
     except gen_datum.ParseError as ex:
         proof = proof_check(PID)
         proof["ok"] = False
